@@ -469,6 +469,13 @@ var fmtMinimalS = []string{
 	`directive @d on SCHEMA schema @d { query: Query } type Query { f: Int }`, // directives, default roots
 	`directive @d on SCHEMA type Query { f: Int } extend schema @d`,
 	`type Query { f: Int } extend type Query { g: Int }`,
+	// a query root that is not an object type (the recorded C07 finding) gets __schema/__type, which the formatter hides but still brackets
+	`scalar Query`,
+	`enum Query { A }`,
+	`type A { x: Int } union Query = A`,
+	// an extension of a type of the prelude: FormatSchema skips built-in types altogether
+	`type Query { a: Int } extend type __Type { extra: Int }`,
+	`type Query { a: Int } directive @x on SCALAR extend scalar String @x`,
 }
 
 func init() {
